@@ -239,3 +239,19 @@ From BB Require Gen.Effects Proofs.Effects Proofs.EffectsOk.
 Theorem C11_assemble_is_a_function_of_its_inputs : Proofs.Effects.summary_ok Gen.Effects.summary = true.
 Proof. exact Proofs.EffectsOk.summary_ok_holds. Qed.
 Print Assumptions C11_assemble_is_a_function_of_its_inputs.
+
+(* escaped character literals: for every printable character e such that the text  backslash e  denotes ONE character v (Spec/Escapes.v,
+   written from the documentation: the ten one-character escapes n t r a b f v backslash quote double-quote, and one octal digit), the
+   line  X = '\e'  gives X the value v through the whole model path (lexer character-literal protection, parser, PyExpr,
+   resolve_constants) -- kernel sweep of the 95 printable characters *)
+From BB Require Spec.Escapes Proofs.StringEscapes.
+Theorem C11_char_escapes : forall e v : Z, Z.le 32 e -> Z.le e 126 -> Escapes.denote [92; e] = Some [v] ->
+  const_value_of_line (StringEscapes.esc_char_line e) = Some v.
+Proof. exact StringEscapes.esc_char_literals. Qed.
+Print Assumptions C11_char_escapes.
+Example C11_char_escapes_example :       (* n t r backslash quote double-quote a b f v 0 7 *)
+  map (fun e => Escapes.denote [92; e]) [110; 116; 114; 92; 39; 34; 97; 98; 102; 118; 48; 55] =
+    map (fun v => Some [v]) [10; 9; 13; 92; 39; 34; 7; 8; 12; 11; 0; 7] /\
+  map (fun e => const_value_of_line (StringEscapes.esc_char_line e)) [110; 116; 114; 92; 39; 34; 97; 98; 102; 118; 48; 55] =
+    map Some [10; 9; 13; 92; 39; 34; 7; 8; 12; 11; 0; 7].
+Proof. vm_compute. split; reflexivity. Qed.
